@@ -242,7 +242,7 @@ def run(ctx):
     work = []
     for tr in HARNESSES:
         p = dict(transport=tr, seed=ctx.seed)
-        d = depth + ((1 if quick else 4) if tr == "coap" else (1 if tr == "ble" else 0))
+        d = depth + ((1 if quick else 5) if tr == "coap" else ((1 if quick else 3) if tr == "ble" else (0 if quick else 1)))
         rs = explore.roots(lambda: make(p), 2)
         work += [(p, r, d) for r in rs]
     ctx.bounds.update(depth=depth, transports=list(HARNESSES))
